@@ -250,7 +250,7 @@ impl Sys for C03 {
 }
 
 pub fn run(ctx: &Ctx) -> Result<Run, String> {
-    let depth = ctx.tier.pick(3, 4);
+    let depth = ctx.tier.pick(3, 5);
     let g = graph::bfs(&C03 { depth }, ctx.threads);
     let ok = g.stats.outcomes.get("auth:ok").copied().unwrap_or(0);
     let mut run = Run::from_stats(
